@@ -102,7 +102,14 @@ def v_eq(interp, a, b):
         if ta is None or tb is None:
             raise Unsupported('comparison of an abstract table with a concrete one')
         return True if ta.eq(tb) else (ta == tb)
+    from .summaries import AbsAny as _AbsAny
+    if isinstance(a, _AbsAny) or isinstance(b, _AbsAny):
+        if isinstance(a, _AbsAny) and isinstance(b, _AbsAny):
+            return True if a.term.eq(b.term) else (a.term == b.term)
+        raise Unsupported('comparison of an uninterpreted value with a concrete one')
     if isinstance(a, UStr) or isinstance(b, UStr):
+        if not (isinstance(a, UStr) or is_str(a)) or not (isinstance(b, UStr) or is_str(b)):
+            return False
         ta = a.term if isinstance(a, UStr) else str_term(a)
         tb = b.term if isinstance(b, UStr) else str_term(b)
         return True if ta.eq(tb) else (ta == tb)
@@ -585,7 +592,7 @@ def is_ws(cp):
 
 
 def to_str(interp, v):
-    if is_str(v):
+    if is_str(v) or isinstance(v, UStr):
         return v
     if isinstance(v, bool):
         return str(v)
@@ -602,7 +609,7 @@ def to_str(interp, v):
         m = interp.p.find_member(v.cls, '__str__')
         if m is not None:
             r = interp.invoke(m, [v], {})
-            if not is_str(r):
+            if not is_str(r) and not isinstance(r, UStr):
                 raise PyExc('TypeError', '__str__ returned non-string', True)
             return r
         if v.cls == 'AnsiStr':
@@ -852,6 +859,8 @@ def str_term(s):
     c = ctx()
     if isinstance(s, PObj) and s.cls == 'AnsiStr':
         s = s.attrs['__payload__']
+    if isinstance(s, UStr):
+        return s.term
     if isinstance(s, str):
         key = ('strlit', s)
         if key not in c.cache:
@@ -896,7 +905,7 @@ def _arg_term(interp, a):
         return [z3.BoolVal(False), z3.If(a, 1, 0)]
     if is_int(a):
         return [z3.BoolVal(False), Z(a)]
-    if is_str(a) or isinstance(a, PObj) and a.cls == 'AnsiStr':
+    if is_str(a) or isinstance(a, UStr) or isinstance(a, PObj) and a.cls == 'AnsiStr':
         return [str_term(a)]
     if isinstance(a, tuple):
         out = [z3.IntVal(len(a))]
@@ -965,7 +974,7 @@ def isinstance_one(interp, v, t):
         if n == 'bool':
             return is_bool(v)
         if n == 'str':
-            return is_str(v) or (isinstance(v, PObj) and p.is_subclass(v.cls, 'str'))
+            return is_str(v) or isinstance(v, UStr) or (isinstance(v, PObj) and p.is_subclass(v.cls, 'str'))
         if n == 'list':
             return isinstance(v, PList) or (isinstance(v, SymSeq) and v.kind == 'list')
         if n == 'tuple':
@@ -1000,6 +1009,8 @@ def _b_len(interp, c, args, kw):
     (v,) = args
     if is_str(v):
         return sym.s_len(v)
+    if isinstance(v, UStr):
+        return sym.atom(z3.Function('str.len', STRSORT, sym.IntSort)(v.term))
     if isinstance(v, PList):
         return len(v.items)
     if isinstance(v, tuple):
@@ -1604,5 +1615,11 @@ def call_method(interp, recv, name, args, kwargs):
     if is_int(recv) and name == '__repr__':
         return to_str(interp, recv)
     if isinstance(recv, UStr):
-        raise Unsupported('method %s on uninterpreted string' % name)
+        from .summaries import AbsAny as _AbsAny
+        ts = [recv.term]
+        for a in list(args) + [kwargs[k] for k in sorted(kwargs)]:
+            ts.extend(_arg_term(interp, a))
+        from . import abstract as _ab
+        f = z3.Function('ustr.%s/%d' % (name, len(ts)), *([t.sort() for t in ts] + [_ab.ANY]))
+        return _AbsAny(f(*ts))
     raise Unsupported('method %s on %s' % (name, type(recv).__name__))
